@@ -155,6 +155,13 @@ def run_property(pid, tier, obligations, level="model_checking", extra_assumptio
         v = results[idx]["violations"][vi]
         v["replay"] = rp
         if not rp.get("reproduced"):
+            if v.get("approx"):
+                # found on a path that used an over-approximation (relaxed division / sign-only real
+                # arithmetic) and not confirmed by the concrete run: a spurious candidate, inconclusive
+                results[idx]["inconclusive"].append("candidate from an over-approximated path did not replay: %s" % v["msg"])
+                if results[idx]["status"] == "violation" and all((not x.get("replay", {}).get("reproduced", True)) and x.get("approx") for x in results[idx]["violations"] if "replay" in x):
+                    results[idx]["status"] = "inconclusive"
+                continue
             unrepro.append((ob.id, v))
             continue
         # message from the concrete run is authoritative
